@@ -4,6 +4,7 @@ import (
 	"context"
 
 	"github.com/evstack/ev-node/block"
+	coreexec "github.com/evstack/ev-node/core/execution"
 	coreseq "github.com/evstack/ev-node/core/sequencer"
 	"github.com/evstack/ev-node/pkg/signer"
 )
@@ -12,6 +13,10 @@ func newManager(n *Node, sg any, seq any) (*block.Manager, error) {
 	var s signer.Signer
 	if sg != nil {
 		s = sg.(signer.Signer)
+	}
+	var ex coreexec.Executor = &ExecClient{Exec: n.Env.Exec, Fate: n.Fate, Gate: n.Gate}
+	if n.ExecImpl != nil {
+		ex = n.ExecImpl.(coreexec.Executor)
 	}
 	var m *block.Manager
 	var err error
@@ -22,7 +27,7 @@ func newManager(n *Node, sg any, seq any) (*block.Manager, error) {
 			n.Cfg,
 			n.Genesis,
 			n.Store,
-			&ExecClient{Exec: n.Env.Exec, Fate: n.Fate, Gate: n.Gate},
+			ex,
 			seq.(coreseq.Sequencer),
 			&DAClient{DA: n.Env.DA, Fate: n.Fate, Gate: n.Gate},
 			Logger,
